@@ -302,7 +302,7 @@ def check_config(cfg, ctx, m, mon, probe):
         except Exception as e:
             ctx.violation("stored_circuit_cannot_be_re_evaluated", case, {"rank": rank, "exception": f"{type(e).__name__}: {e}"[:200]}, key="honesty_exc")
             continue
-        if not np.isclose(again, float(score), atol=1e-9):
+        if not np.isclose(again, float(score), atol=1e-9, rtol=0):
             ctx.violation("stored_score_differs_from_re_evaluated_metric", case, {"rank": rank, "stored": float(score), "re_evaluated": again}, key="dishonest:metric")
             continue
         if c.n_quantum <= 7:
